@@ -189,7 +189,18 @@ def seq_case(name, topo, rng, base=None, geom=None, max_elems=10):
         findex.append(sorted(set(int(v) for v in index[sel])))
         fcoords.append(scaled(coords[sel][:2]))
         points.append(scaled(numpy.asarray(smp.points[i].coords)[:2]))
-    case = dict(kind='seq', name=name, expr=expr, chains=chains, obs=obs, findex=findex, fcoords=fcoords, points=points, geomtab=[], ifaces=[])
+    case = dict(kind='seq', name=name, expr=expr, chains=chains, obs=obs, findex=findex, fcoords=fcoords, points=points, geomtab=[], ifaces=[],
+                bexpr=mkexpr('none'), bindex=[], bcoords=[])
+    if base is not None and base is not topo:
+        try:
+            bexpr = to_expr(base.transforms, [ref_to_dims(r) for r in base.references])
+            bi, bc = smp.eval([base.f_index, base.f_coords])
+            bi, bc = numpy.asarray(bi), numpy.asarray(bc)
+            case['bexpr'] = bexpr
+            case['bindex'] = [sorted(set(int(v) for v in bi[smp.getindex(i)])) for i in range(n)]
+            case['bcoords'] = [scaled(bc[smp.getindex(i)][:2]) for i in range(n)]
+        except Skip:
+            pass
     if base is not None and type(base.transforms).__name__ == 'IndexTransforms' and base.transforms._offset == 0 and topo.opposites is not topo.transforms:
         try:
             case['geomtab'] = geometry_table(base, geom)
@@ -350,6 +361,7 @@ def locate_cases(rep, rng):
 def pad(case):
     """every case carries every field (TLC compares / accesses records uniformly)"""
     base = dict(kind='', name='', expr=mkexpr('none'), chains=[], obs=[], findex=[], fcoords=[], points=[], geomtab=[], ifaces=[],
+                bexpr=mkexpr('none'), bindex=[], bcoords=[],
                 refs=[], targets=[], tol=0, raised=False, allinside=True, res=[])
     out = dict(base)
     out.update({k: v for k, v in case.items() if k in base})
